@@ -496,9 +496,28 @@ type c17Verdict struct {
 
 // c17Schema compiles `<ex> // {enum: <value>}`, with the rule registered when
 // ruleText is non-nil.
-func c17Schema(ex, value string, ruleText *string) (v c17Verdict) {
+// c17Host writes the example with an annotation holding the enum rule in one of
+// the ways an annotation can be laid out (the same way for the named and the
+// inline spelling of a pair).
+func c17Host(ex, value string, form int) string {
+	switch form % 6 {
+	case 1:
+		return ex + " /* {enum: " + value + "} */"
+	case 2:
+		return ex + " /* {\n  enum: " + value + "\n} */"
+	case 3:
+		return ex + " /* {enum: " + value + ",\n nullable: false\n} */"
+	case 4:
+		return ex + " // {nullable: false, enum: " + value + "}"
+	case 5:
+		return ex + " /*\n{\n  \"enum\": " + value + " ,\n  nullable: false\n}\n*/"
+	}
+	return ex + " // {enum: " + value + "}"
+}
+
+func c17Schema(ex, value string, ruleText *string, form int) (v c17Verdict) {
 	v.pan = mon.Guard(func() {
-		s := jschema.New("root", ex+" // {enum: "+value+"}")
+		s := jschema.New("root", c17Host(ex, value, form))
 		if ruleText != nil {
 			if err := s.AddRule("@e", enum.New("@e", *ruleText)); err != nil {
 				v.code, v.err = "addrule:"+c17Code(err), c17ErrLine(err)
@@ -525,8 +544,9 @@ func c17Inline(r *mon.Run, text string, items []c17Item, ex string) {
 	cs := c17Case{Text: text, Ex: ex}
 	key := text + " | example " + ex
 	list := c17InlineList(items)
-	named := c17Schema(ex, "@e", &text)
-	inline := c17Schema(ex, list, nil)
+	form := len(ex) + len(text)
+	named := c17Schema(ex, "@e", &text, form)
+	inline := c17Schema(ex, list, nil, form)
 	if named.pan != nil {
 		r.Violate("panic", "named-schema/"+named.pan.Site, fmt.Sprintf("schema `%s // {enum: @e}` with rule %q panicked: %s", ex, mon.Trunc(text, 120), named.pan.Value), cs)
 		return
@@ -614,7 +634,7 @@ func c17InlineDup(r *mon.Run, text string, items []c17Item) {
 	r.Eval(1)
 	ex := items[0].Lit
 	list := c17InlineList(items)
-	inline := c17Schema(ex, list, nil)
+	inline := c17Schema(ex, list, nil, 0)
 	cs := c17Case{Text: text, Ex: ex, Dup: true}
 	if inline.pan != nil {
 		r.Violate("panic", "inline-schema/"+inline.pan.Site, fmt.Sprintf("schema `%s // {enum: %s}` panicked: %s", ex, mon.Trunc(list, 120), inline.pan.Value), cs)
@@ -1110,7 +1130,7 @@ func init() {
 			"the reference recogniser (about 200 lines, RFC 8259 scalars without exponent; encoding/json decodes strings for the sameness test) is the reading of the property text",
 			"annotations may stand wherever a blank may between the brackets; a `//` annotation ends at LF or CR and may be empty",
 			"not judged: the empty list, any non-blank text after the closing bracket, an annotation before the opening bracket, invalid UTF-8 or unpaired surrogate escapes inside strings, numbers equal in value but not in text",
-			"the inline form is the list's literals joined by comma and blank inside a one-line `// {enum: [...]}` annotation",
+			"the inline form is the list's literals joined by comma and blank; the annotation that holds `enum: @e` / `enum: [...]` is laid out in one of six ways (//, /* */ on one line, the rule on a line of its own, followed by a line break and another rule, after another rule, quoted name), the same way for both spellings of a pair",
 			"a map-order dependence with two outcomes escapes 8 repetitions with probability 2^-7 per text"},
 		Exhaustive: "all token strings up to the stated length over the 17-token alphabet (modulo pruning of dead or permanently unjudged prefixes)",
 		Finalize:   foldScanPairs,
